@@ -112,6 +112,10 @@ func e2eOptions(run *evid.Run, rng *rand.Rand, rounds int) int {
 				ro.RequireRecipientValidSince = time.Unix(int64(rng.Intn(2000000000)), 0).UTC()
 			}
 			from, to := fmt.Sprintf("from%d@x.test", mask), fmt.Sprintf("to%d@x.test", mask)
+			if mask%3 == 1 {
+				from = "fr%om%%x+tag=" + fmt.Sprint(mask) + "!#$&'*/?^_`{|}~@x.test"
+				to = "user%host" + fmt.Sprint(mask) + "%s@relay.test"
+			}
 			if mo.UTF8 {
 				// internationalised mailboxes: local part and domain
 				u := []string{"é", "ß", "à", "Å", "ą", "я", "…", "日", "😀", "ü"}
